@@ -6,7 +6,7 @@ CHOICE = "shexer.model.fixed_prop_choice_statement:FixedPropChoiceStatement"
 BASESER = "shexer.io.shex.formater.statement_serializers.base_statement_serializer:BaseStatementSerializer"
 CHOICESER = "shexer.io.shex.formater.statement_serializers.fixed_prop_choice_statement_serializer:FixedPropChoiceStatementSerializer"
 
-def install(kind=Str, prop=Str):
+def install(kind=Str, prop=Str, text=Str):
     FreqSer = schema("FreqSer", [
         "shexer.io.shex.formater.statement_serializers.frequency_strategy.ratio_freq_serializer:RatioFreqSerializer",
         "shexer.io.shex.formater.statement_serializers.frequency_strategy.abs_freq_serializer:AbsFreqSerializer",
@@ -16,7 +16,7 @@ def install(kind=Str, prop=Str):
         {"_instantiation_property_str": Str, "_disable_comments": Bool, "_is_inverse": Bool, "_frequency_serializer": FreqSer})
     Statement = schema("Statement", [ST, CHOICE],
         {"_st_property": prop, "_st_type": Opt(kind), "_cardinality": Card, "_n_occurences": Int, "_probability": Real,
-         "_serializer_object": Opt(StSer), "_comments": List(Str), "_is_inverse": Bool, "_st_types": List(kind)},
+         "_serializer_object": Opt(StSer), "_comments": List(text), "_is_inverse": Bool, "_st_types": List(kind)},
         invariant=["implies(has_class(self, 'Statement'), self._st_type is not None)",
                    "implies(is_int(self._cardinality), card_val(self._cardinality) >= 1)"])
     Shape = schema("Shape", ["shexer.model.shape:Shape"],
